@@ -24,6 +24,8 @@ def line_tokens(t):
 
 def run(ctx):
     repo = ctx.repo
+    rules.borrow(ctx, "C09", funcs=["forsys.surface_evolver.SurfaceEvolver.create_lattice"], minimum=5, because="cell-less vertices are removed together with all their mesh edges")
+    rules.borrow(ctx, "C10", key_parts=["forsys.surface_evolver.SurfaceEvolver / STATE /"], minimum=0, because="each parser object reads its own file: no section index shared through the class")
 
     # ================================================================== writers: token -> column
     def columns(fname):
@@ -210,6 +212,7 @@ def run(ctx):
     gts = [e for e in sc.stores("gt")]
     ok = False
     how = "?"
+    X = None
     for e in gts:
         v = e.value
         lp = e.loops()
@@ -226,7 +229,8 @@ def run(ctx):
         ok = X in by_id or X in own
     ctx.check(ok, "CONST", f"{cl.qualname} / CONST / reference tension = round(density of the edge's own record, 4)", ctx.where(cl),
               "4 digits; the density is the one of the row with the same id (or of the row itself)",
-              f"the reference tension is round({how}, 4): not the density recorded for this edge's own id (ids need not be 1..n)")
+              f"the reference tension is round({how}, 4): not the density recorded for this edge's own id (ids need not be 1..n)",
+              value=X)
 
     ctx.clause("parsing a dump does not depend on what was parsed before (no module-level or class-level cache)")
     shared = rules.module_level_mutated(repo, "forsys.surface_evolver")
